@@ -27,14 +27,16 @@ pub mod c04;
 pub mod c05;
 pub mod c06;
 pub mod c07;
+pub mod c08;
 pub mod c09;
+pub mod c10;
 pub mod c11;
 pub mod c12;
 pub mod c16;
 pub mod c17;
 
 pub fn all() -> Vec<&'static CheckDef> {
-    vec![&c01::DEF, &c02::DEF, &c03::DEF, &c04::DEF, &c05::DEF, &c06::DEF, &c07::DEF, &c09::DEF, &c11::DEF, &c12::DEF, &c16::DEF, &c17::DEF]
+    vec![&c01::DEF, &c02::DEF, &c03::DEF, &c04::DEF, &c05::DEF, &c06::DEF, &c07::DEF, &c08::DEF, &c09::DEF, &c10::DEF, &c11::DEF, &c12::DEF, &c16::DEF, &c17::DEF]
 }
 
 pub fn find_check(id: &str) -> Option<&'static CheckDef> {
